@@ -76,15 +76,22 @@ def run(pid, tier):
         elif k < 0.85: s = t[:i]
         else: s = t[:i] + bytes([rng.randrange(256)]) + t[i + 1:]
         cases.append(s)
-    # nesting to 100 levels (brackets and blocks), closed and unclosed
-    for d in (10, 50, 100):
-        cases += [b"@()@(" + b"(" * d + b"a" + b")" * d + b")", b"@()@a" + b"[" * d + b"1" + b"]" * d, b"@()@a" + b"{" * d + b"}" * d,
+    # nesting to 100 levels (brackets and blocks), closed and unclosed: run apart from the rest, one
+    # process per input under a time limit, so that an input that does not terminate is identified
+    deep = []
+    for d in (10, 16, 22, 28, 50, 100):
+        deep += [b"@()@(" + b"(" * d + b"a" + b")" * d + b")", b"@()@a" + b"[" * d + b"1" + b"]" * d, b"@()@a" + b"{" * d + b"}" * d,
                   b"@()" + b"@if a {" * d + b"x" + b"}" * d, b"@()" + b"@if a {" * d + b"x" + b"}" * (d - 1), b"@()@(" + b"(" * d,
                   b"@()" + b"@for a in b {" * d + b"}" * d, b"@()" + b"@:c({" * d + b"})" * d, b"@()@a" + b".a" * d, b"@(a: " + b"Vec<" * d + b"u8" + b">" * d + b")",
                   b"@(a: " + b"(" * d + b"u8" + b")" * d + b")x", b"@()@if " + b"!" * d + b"a {}", b"@()@if a" + b" && a" * d + b" {}"]
     cases = list(dict.fromkeys(cases))
     named = [("t_html", s) for s in cases]
     impl, model = compile_pairs(named)
+    dl = ["%s %s" % (hexs(b"t_html"), hexs(s)) for s in deep]
+    dimpl = run_impl("compile", dl, shards=len(dl), timeout=25)
+    dmodel = run_model("compile", dl, shards=len(dl), timeout=120)
+    slow = [(s, a) for s, a in zip(deep, dimpl) if a in ("CRASH", "SKIPPED")]
+    cases += deep; impl += dimpl; model += dmodel
     disagree = []; oracle_fail = []; hist = {}
     sizes = {}
     for s, a, m in zip(cases, impl, model):
@@ -94,7 +101,8 @@ def run(pid, tier):
         b = "<=8" if len(s) <= 8 else "<=64" if len(s) <= 64 else "<=1K" if len(s) <= 1024 else ">1K"
         sizes[b] = sizes.get(b, 0) + 1
         if a != m: disagree.append((s, a, m))
-        if st in ("PANIC", "CRASH"): oracle_fail.append((s, "compilation of this input panics", None))
+        if st == "CRASH" and s in deep: oracle_fail.append((s, "compilation of this input did not terminate within 25 s (or the process died)", None))
+        elif st in ("PANIC", "CRASH"): oracle_fail.append((s, "compilation of this input panics", None))
         elif st == "ERR":
             why = check_diag(s, payload)
             if why: oracle_fail.append((s, why, dict(diagnostic=payload.decode("utf8", "replace")[:800])))
